@@ -160,6 +160,18 @@ def _worker_init():
     neutralise_overheads()
 
 
+def _raised_in_library(tb) -> bool:
+    """True when the innermost frame of the traceback lies inside the quantem tree under test."""
+    root = os.path.realpath(os.path.join(os.environ.get("VERIF_REPO", "/repo"), "src")) + os.sep
+    last = None
+    while tb is not None:
+        last = tb
+        tb = tb.tb_next
+    if last is None:
+        return False
+    return os.path.realpath(last.tb_frame.f_code.co_filename).startswith(root)
+
+
 def _call_chunk(args):
     func, chunk, kw = args
     warnings.simplefilter("ignore")
@@ -167,10 +179,22 @@ def _call_chunk(args):
     for item in chunk:
         try:
             r = func(item, **kw)
-        except Exception as e:  # a crash of the *checker* on one point: reported, makes the run broken
-            t.extra["harness_errors"] += 1
-            t.fail({"harness_error": type(e).__name__}, {"item": jsonable(item)}, "HARNESS ERROR " + traceback.format_exc()[-1500:])
+        except Broken:
+            raise
+        except Exception as e:
             t.n += 1
+            tb = traceback.format_exc()[-1500:]
+            if _raised_in_library(e.__traceback__):
+                # the library itself raised on a point of the lattice (all points are valid inputs for which the
+                # property promises a result): that is a verdict, replayable by calling the worker again
+                t.fail(
+                    {"relation": "library_raises_on_valid_input", "exception": type(e).__name__, "worker": func.__name__},
+                    {"__func__": func.__name__, "__item__": jsonable(item), "__kw__": jsonable(kw)},
+                    f"{func.__name__}({jsonable(item)!r}) raised inside quantem: {type(e).__name__}: {str(e)[:300]}\n{tb[-600:]}",
+                )
+            else:  # a crash of the *checker* on one point: reported, makes the run broken
+                t.extra["harness_errors"] += 1
+                t.fail({"harness_error": type(e).__name__}, {"item": jsonable(item)}, "HARNESS ERROR " + tb)
             continue
         if isinstance(r, Tally):
             t.merge(r)
@@ -506,7 +530,16 @@ def do_replay(ctx, mod, path):
     ctx.say(f"replaying {path}: class={rec.get('cls')}")
     if "seed" in rec:
         ctx.seed = rec["seed"]
-    mod.replay(ctx, rec["case"])
+    case = rec["case"]
+    if isinstance(case, dict) and "__func__" in case:
+        # generic replay of "the library raised on this lattice point": call the worker again
+        func = getattr(mod, case["__func__"])
+        item = case["__item__"]
+        item = tuple(tuple(x) if isinstance(x, list) else x for x in item) if isinstance(item, list) else item
+        r = _call_chunk((func, [item], case.get("__kw__") or {}))
+        ctx.tally.merge(r)
+    else:
+        mod.replay(ctx, case)
     if ctx.tally.fails:
         for f in ctx.tally.fails[:5]:
             print(f"  reproduced: {f['msg']}", flush=True)
